@@ -173,6 +173,8 @@ class Ctx:
                    "-workers", "1", "-metadir", meta, "-config", module + ".cfg", module + ".tla"]
             rc, out = run(cmd, cwd=d, timeout=timeout, env={"TRACE": shard})
             shutil.rmtree(meta, ignore_errors=True)
+            if '"DRIFT ' in out:     # non-decisive notes printed by a trace spec with PrintT("DRIFT ...")
+                self.__dict__.setdefault("drift", set()).update(x for x in out.split("\n") if x.startswith('"DRIFT '))
             st = parse_tlc_stats(out)
             if rc == 124:
                 raise Infra("trace validation timed out on " + shard)
@@ -206,6 +208,31 @@ class Ctx:
             if len(rejs) >= max_rej:
                 return rejs, 0, 0
 
+    # ---------- diagnostics: which WellFormed clause is false on the topology of an event ----------
+    def diag_topo(self, event_line):
+        if '"topos"' not in event_line or '"slot"' not in event_line:
+            return ""
+        d = self.path("diag-%d" % len(os.listdir(self.dir)))
+        os.makedirs(d)
+        try:
+            for f in os.listdir(SPEC):
+                if f.endswith(".tla"):
+                    shutil.copy(os.path.join(SPEC, f), d)
+            open(os.path.join(d, "DiagTopo.cfg"), "w").write("INIT Init\nNEXT Next\n")
+            open(os.path.join(d, "event.ndjson"), "w").write(event_line.strip() + "\n")
+            cmd = ["java", "-Xmx3g", JAVA_OPTS, "-cp", TLA_CP, "tlc2.TLC", "-noGenerateSpecTE", "-workers", "1",
+                   "-metadir", os.path.join(d, "meta"), "-config", "DiagTopo.cfg", "DiagTopo.tla"]
+            rc, out = run(cmd, cwd=d, timeout=600, env={"EVENT": os.path.join(d, "event.ndjson")})
+            m = re.search(r'<<"ALLBAD", (\{.*?\})>>', out)
+            f = re.search(r'<<"FIRSTBAD", "(.*?)">>', out)
+            if m or f:
+                return "WellFormed clauses false after the call: first=%s all=%s" % (f.group(1) if f else "?", m.group(1) if m else "?")
+            return ""
+        except Exception:
+            return ""
+        finally:
+            shutil.rmtree(d, ignore_errors=True)
+
     # ---------- rejections: confirm, match known findings ----------
     def handle_rejections(self, rejs, behaviours, replay_fn, describe=None):
         """behaviours: list of behaviour texts indexed by beh; replay_fn(text)-> list of rejections (fresh process)."""
@@ -221,7 +248,10 @@ class Ctx:
                 log("NOTE: rejection did not repeat:", r["line"][:300])
                 continue
             r2 = again[0]
-            hit = match_known(kf, text, r2["line"])
+            dg = self.diag_topo(r2["line"])
+            if dg:
+                r2["why"] = (r2.get("why", "") + " " + dg).strip()
+            hit = match_known(kf, text, r2["line"] + " #" + r2.get("why", ""))
             if hit:
                 self.known_hits.append((hit, text))
                 continue
